@@ -74,9 +74,9 @@ PROPS = {
     "C08": P(q=50, workloads="mq-wake: consumers blocked in recv / recv_view / blocking iterators under Busy / Yielding / Blocking strategies with default and zero spins; Miri slice (deadlock detector)"),
     "C09": P(q=200, t=2000, assumptions=SEQ_ASSUME, workloads="mq-seq random sequences of 300 calls over all eight handle families + exhaustive enumeration of a 14-command alphabet; Miri slice for UB on sequential paths"),
     "C10": P(workloads="mq-conc add-stream-sole and add-stream-shared (one or two adders, rendezvous stalls between snapshot / publication and the writers' scan), mq-fut scenarios in which a polled receiver adds a stream and drops the parent"),
-    "C11": P(workloads="mq-conc remove-stream (producers refused against a slow stream that is then removed, optionally racing an add_stream on another stream), no-receiver with simultaneous unsubscribes, mq-seq unsubscribe results, mq-fut scenarios in which a receiver leaves while a sink is parked"),
+    "C11": P(workloads="mq-conc remove-stream (producers refused against a slow stream that is then removed, optionally racing an add_stream on another stream), no-receiver with simultaneous unsubscribes, mq-seq unsubscribe results, mq-fut scenarios in which a receiver leaves while a sink is parked, mq-tight last-receiver"),
     "C12": P(workloads="mq-conc handle-churn: senders 1->2->1, consumers of a stream 1->2->1 via clone/drop/unsubscribe/into_single/into_multi during traffic"),
-    "C13": P(q=50, workloads="mq-seq (every order of dropping receivers, all sender flavours), mq-conc no-receiver (last receiver leaves while producers send), mq-fut (sink parked while the last receiver is dropped)"),
+    "C13": P(q=50, workloads="mq-seq (every order of dropping receivers, all sender flavours), mq-conc no-receiver (last receiver leaves while producers send), mq-fut (sink parked while the last receiver is dropped), mq-tight last-receiver (the last receiver leaves while another thread runs reclamation cycles; ~50k trials/s)"),
     "C14": P(q=50, workloads="mq-fut: sink and stream tasks polled only when notified, receivers draining through poll / direct methods / being dropped, probe-poll at quiescence"),
     "C15": P(q=100, assumptions=COMMON + SEQ_ASSUME, workloads="mq-seq futures configurations (start_send/poll mixed with direct methods, fresh empty queues), mq-fut, mq-conc futures variants; own-step bound on poll/start_send"),
     "C16": P(q=20, t=200, workloads="mq-churn stress under AddressSanitizer (sharded) and Miri; natively for volume",
@@ -152,7 +152,8 @@ def jobs_for(prop, tier, seed):
     elif prop == "C11":
         J += conc(prop, seed, ["remove-stream", "remove-stream", "no-receiver"], n - 5, s)
         J += shard_jobs(prop, seed, ["seq", "--cfgs", "broadcast"], 2, s, "seq", base=100)
-        J += shard_jobs(prop, seed, ["fut"], 3, s, "fut", base=60)
+        J += shard_jobs(prop, seed, ["fut"], 2, s, "fut", base=60)
+        J += shard_jobs(prop, seed, ["tight", "--mode", "last-receiver"], 1, s, "last-receiver", base=90)
     elif prop == "C12":
         J += conc(prop, seed, ["handle-churn"], n - 4, s)
         # long free-running executions: windows that contain no hook site are only reachable through
@@ -162,7 +163,8 @@ def jobs_for(prop, tier, seed):
     elif prop == "C13":
         J += shard_jobs(prop, seed, ["seq"], 4, s, "seq", base=100)
         J += conc(prop, seed, ["no-receiver"], 4, s)
-        J += shard_jobs(prop, seed, ["fut"], n - 8, s, "fut", base=60)
+        J += shard_jobs(prop, seed, ["fut"], n - 10, s, "fut", base=60)
+        J += shard_jobs(prop, seed, ["tight", "--mode", "last-receiver"], 2, s, "last-receiver", base=90)
     elif prop == "C14":
         J += shard_jobs(prop, seed, ["fut"], n, s, "fut")
         J.append(miri(prop, seed, "fut", ["fut", "--runs", "2"], ms, mt, {"*": "C14"}, no_race=True, base=37))
